@@ -484,9 +484,80 @@ func c02Once(w *run.Worker) {
 	}
 }
 
+// c02Again: the same operator node evaluated again, in the next round of a loop, with an operand of
+// another type or value: the second evaluation is decided by ITS operands (nothing remembered per node).
+func c02Again(w *run.Worker, d dctx) {
+	Id := rt.Id
+	all := c02Values()
+	pick := map[string]bool{"nil": true, "true": true, "0": true, "1": true, "-1": true, fmt.Sprint(int64(1<<53 + 1)): true, "0.5": true, "2.0": true, `""`: true, `"a"`: true, "[1]": true, `{"a":1}`: true}
+	var vals []opVal
+	for _, v := range all {
+		if pick[v.Name] {
+			vals = append(vals, v)
+		}
+	}
+	for _, op := range c02BinOps {
+		for side := 0; side < 2; side++ {
+			for _, a := range vals {
+				for _, b := range vals {
+					for _, c := range vals {
+						if !w.Take() {
+							continue
+						}
+						var e *rt.Node
+						if side == 0 {
+							e = rt.Bin(op, Id("v"), c.Node())
+						} else {
+							e = rt.Bin(op, c.Node(), Id("v"))
+						}
+						body := []*rt.Node{rt.ForIn("v", rt.List(a.Node(), b.Node()), rt.Block(rt.Call("p", rt.Normalize(e))))}
+						p := &Prog{Scripts: map[string][]*rt.Node{"s.p": body}, Main: "s.p", Point: PointSpec{Meas: "m"}}
+						w.Eval()
+						v := d.diff(p)
+						if v.Key == "unexpected-load-error" && (op == "/" || op == "%") && side == 0 && isZeroLit(c.Node()) {
+							w.Outcome("loaderr-literal-zero-divisor")
+							continue
+						}
+						w.Outcome(v.Outcome)
+						if v.Skipped != "" {
+							w.Note("unspecified_cells_skipped", 1)
+							continue
+						}
+						if !v.OK {
+							w.Violate(d.id+":again:"+op+":"+c02Class(v), v.What, c02Case{Form: "tree", Op: op, Tree: p.Sources()["s.p"]})
+						}
+					}
+				}
+			}
+		}
+	}
+	for _, op := range c02UnOps {
+		for _, a := range vals {
+			for _, b := range vals {
+				if !w.Take() {
+					continue
+				}
+				body := []*rt.Node{rt.ForIn("v", rt.List(a.Node(), b.Node()), rt.Block(rt.Call("p", rt.Un(op, Id("v")))))}
+				p := &Prog{Scripts: map[string][]*rt.Node{"s.p": body}, Main: "s.p", Point: PointSpec{Meas: "m"}}
+				w.Eval()
+				v := d.diff(p)
+				w.Outcome(v.Outcome)
+				if v.Skipped != "" {
+					w.Note("unspecified_cells_skipped", 1)
+					continue
+				}
+				if !v.OK {
+					w.Violate(d.id+":again:un"+op+":"+c02Class(v), v.What, c02Case{Form: "tree", Op: op, Tree: p.Sources()["s.p"]})
+				}
+			}
+		}
+	}
+}
+
 func c02Run(w *run.Worker) {
 	vals := c02Values()
 	c02Mutating(w)
+	c02Again(w, dctx{id: "C02", diff: Differential})
 	c02Once(w)
 	// (A) the complete operator table
 	for src := srcLit; src <= srcCompLR; src++ {
